@@ -15,16 +15,21 @@
                                under the caller's weights (transport along the edge permutation, both ways).
      C06_k1_signed_modulo_search  the same for approx_mcb_sva_signed with the premise reduced to the
                                specification of the per-phase search, plus returned value = total weight.
-   NOT proved (Definitions, not asserted):
-     C06_edge_stmt    every dropped-edge cycle weighs at most 2k * w(e) — needs optimality of the plain Dijkstra
-                      (heap order + non-negative weights) on top of C15_stretch;
+     C06_dijkstra              the plain parmcb::dijkstra (DijkstraModel, exact 4-ary heap) on non-negative
+                               weights never produces an error value, and its distances are shortest-walk
+                               distances realised by the predecessor edges.
+     C06_edge                  for k >= 1, positive weights and a weight-sorted scan order, the cycle emitted for
+                               a dropped edge e weighs at most 2k * w(e) (shortest spanner path <= the light
+                               (2k-1)-hop path of C15, plus e).
+   NOT proved (Definition, not asserted):
      C06_global_stmt  total <= (2k-1) * optimum (Kavitha, Mehlhorn, Michail 2007: a weight-monotone
                       exchange between two bases of a binary matroid).
-   Both are covered by the check: every answer is judged against the optimum computed by the verified
+   It is covered by the check: every answer is judged against the optimum computed by the verified
    `optw` (RefModel) and by the independent oracle. *)
 From Coq Require Import List Arith Bool ZArith Permutation Sorted Lia.
 From Parmcb Require Import GraphModel GF2Model GraphSpec McbSpec ForestModel SpannerModel SvaModel SvaSpec SvaProofs
-  SignedModel SignedZModel RefModel RefProofs3 ApproxModel ApproxProofsRun ApproxProofsSigned.
+  SignedModel SignedZModel RefModel RefProofs3 DijkstraModel ApproxModel ApproxProofsDijkstraOpt ApproxProofsRun ApproxProofsSigned
+  ApproxProofsEdge.
 Import ListNotations.
 
 Theorem C06_k0 :
@@ -70,13 +75,30 @@ Theorem C06_k1_signed_modulo_search :
 Proof. exact ap_signed_k1_min. Qed.
 Print Assumptions C06_k1_signed_modulo_search.
 
-(* every dropped-edge cycle weighs at most 2k * w(e) (path <= (2k-1) w(e) by C15_stretch and Dijkstra optimality) *)
-Definition C06_edge_stmt : Prop :=
+Theorem C06_dijkstra :
+  forall h wts s,
+    (forall e x y, ends h e = Some (x, y) -> x < nv h /\ y < nv h) -> s < nv h ->
+    (forall e, (0 <= nth e wts 0)%Z) ->
+    exists dist pred,
+      dijkstra Z 0%Z Z.add Z.ltb h wts s = DjOk dist pred
+      /\ nth s dist None = Some 0%Z
+      /\ (forall p v, walk h s p v -> exists dv, nth v dist None = Some dv /\ (dv <= weight wts (wedges p))%Z)
+      /\ (forall w e, nth w pred None = Some e ->
+            exists p dp dw, joins h e w p /\ nth p dist None = Some dp /\ nth w dist None = Some dw
+                            /\ dw = (dp + nth e wts 0)%Z).
+Proof. exact dijkstra_correct. Qed.
+Print Assumptions C06_dijkstra.
+
+(* every dropped-edge cycle weighs at most 2k * w(e): cw is the weight dropped_cycle accumulates under the caller's
+   weights (= the weight of the emitted list, ApproxProofsRun.ap_dropped_cycle_weight) *)
+Theorem C06_edge :
   forall g w k scan sp e cyc cw,
     simple_graph g -> positive_weights g w -> 1 <= k -> Permutation scan (seq 0 (ne g)) ->
     Sorted (fun a b => (wt w a <= wt w b)%Z) scan ->
     construct_spanner g k scan = SpOk sp -> In e (dropped sp) ->
     dropped_cycle g w sp e = inr (cyc, cw) -> (cw <= Z.of_nat (2 * k) * wt w e)%Z.
+Proof. exact ap_edge_bound. Qed.
+Print Assumptions C06_edge.
 
 (* the (2k-1) guarantee against ANY minimum cycle basis B of the input *)
 Definition C06_global_stmt : Prop :=
